@@ -95,3 +95,9 @@ Example recover_example :
   user_all (recover (apply_all t_empty acts)) = [([[99]], Cas JNull 1); ([[98]], Plain (JBool false))] /\
   user_all (recover (apply_all t_empty (firstn 3%nat acts))) = [([[97]], Plain (JBool true)); ([[103]; [49]], Plain JNull); ([[99]], Cas JNull 1)].
 Proof. vm_compute. repeat split; reflexivity. Qed.
+
+(* the ids of the model's clients are recovered from their keys (every id below 256) *)
+Example client_of_str_inverts :
+  forallb (fun c => match client_of_str (client_str c) with Some c' => N.eqb c c' | None => false end)
+          (map N.of_nat (seq 0 256)) = true.
+Proof. vm_compute. reflexivity. Qed.
